@@ -274,6 +274,40 @@ theorem handshake_both_ends_agree (net : NetCfg) (a b : Node) (nonce : Nat) (sa 
   · simp only [negotiate]; omega
   · simp only [negotiate]
 
+/-- **capability words are parsed by truncation, totally**: a `Hand` / `Shake` whose capability word has
+bits outside the defined flags (what a newer peer sends) decodes like the same message with those bits
+cleared — it is never refused for them -/
+theorem caps_truncation_total (word : Nat) :
+    capsTruncate word = word &&& CAPABILITIES_ALL ∧ capsTruncate word ≤ CAPABILITIES_ALL ∧
+    capsTruncate (capsTruncate word) = capsTruncate word := by
+  refine ⟨rfl, Nat.and_le_right, ?_⟩
+  simp only [capsTruncate, Nat.and_assoc, Nat.and_self]
+
+/-- … and the handshake does not look at them: for EVERY announced version and EVERY capability word
+(`h.capabilities` is whatever `capsTruncate` left of it) a `Hand` with our genesis that does not carry
+one of our nonces, from an address that is not denied, is accepted with `min(ours, theirs)` and
+answered with the `Shake`; likewise a `Shake` on the initiating side -/
+theorem newer_peer_accepted (net : NetCfg) (n : Node) (nonces : List Nat) (addrs : List SockAddr)
+    (peer : Option SockAddr) (adv pa : SockAddr) (h : Hand) (s : Shake)
+    (hg : h.genesis = n.genesis) (hn : h.nonce ∉ nonces) (hsg : s.genesis = n.genesis)
+    (hd : isDenied n.deny n.allow (resolvePeerAddr adv.port peer adv) = false)
+    (hda : isDenied n.deny n.allow pa = false) :
+    (∃ i, (acceptFull net n nonces addrs peer adv h).res = .ok i ∧ i.version = min n.version h.version ∧
+        i.capabilities = h.capabilities) ∧
+    (acceptFull net n nonces addrs peer adv h).wrote = some (writeMessage net T_Shake (encShake (mkShake n)) []) ∧
+    (∃ i, initiateFull n pa s = .ok i ∧ i.version = min n.version s.version ∧ i.capabilities = s.capabilities) := by
+  have hc : nonces.contains h.nonce = false := by
+    cases hh : nonces.contains h.nonce with
+    | false => rfl
+    | true => exact absurd (by simpa using hh) hn
+  refine ⟨⟨{ capabilities := h.capabilities, userAgent := h.userAgent, addr := resolvePeerAddr adv.port peer adv,
+             version := min n.version h.version, totalDifficulty := h.totalDifficulty, inbound := true }, ?_, rfl, rfl⟩, ?_,
+          ⟨{ capabilities := s.capabilities, userAgent := s.userAgent, addr := pa,
+             version := min n.version s.version, totalDifficulty := s.totalDifficulty, inbound := false }, ?_, rfl, rfl⟩⟩
+  · simp only [acceptFull, hg, ne_eq, not_true_eq_false, if_false, hc, hd, Bool.false_eq_true, negotiate]
+  · simp only [acceptFull, hg, ne_eq, not_true_eq_false, if_false, hc, hd, Bool.false_eq_true]
+  · simp only [initiateFull, hsg, ne_eq, not_true_eq_false, if_false, hda, Bool.false_eq_true, negotiate]
+
 /-- the hypotheses are satisfiable: a node at version 1000 and one at version 2 settle on 2; the
 acceptor files the dialler under the ip of the socket and the advertised port -/
 example :
